@@ -414,6 +414,63 @@ func ruleJSONOP(c *Ctx, r *Report) {
 		}
 	}
 	r.floor(rule, "stores to Op in the decoder", n, 1)
+	// operands: what the decoder stores into Right is decoded from the document, never re-derived from the
+	// node's own (already decoded) operands; the only rewrite of Left is the column wrapper
+	var lrF []*types.Var
+	for i := 0; i < st.NumFields(); i++ {
+		if st.Field(i).Name() == "Left" || st.Field(i).Name() == "Right" {
+			lrF = append(lrF, st.Field(i))
+		}
+	}
+	for _, s := range c.storesToFields(lrF...) {
+		if s.fn != dec && !c.reachedOnlyFrom(s.fn, dec, 0) {
+			continue
+		}
+		k := c.key(s.st.Val, nil)
+		key := fnName(s.fn) + "|" + s.field.Name() + "←" + k
+		reRead := strings.Contains(k, "$0.Right") || (s.field.Name() == "Right" && strings.Contains(k, "$0.Left"))
+		if reRead {
+			r.bad(rule, key, c.instrPos(s.st), fmt.Sprintf("the decoder replaces %s by a value derived from the node's own operands (%s): a payload is re-typed after decoding (a quoted number becomes a number, …), so re-encoding gives different bytes and the SQL changes", s.field.Name(), k))
+		} else {
+			r.ok(rule, key, c.instrPos(s.st), "decoded from the document")
+		}
+	}
+	// the decoder has no rejection criterion of its own: every error it returns is the error of a decoding call
+	paths, _ := c.enumPaths(dec, 20000)
+	nErr := 0
+	seenErr := map[string]bool{}
+	for _, p := range paths {
+		if p.Ret == nil || len(p.Ret.Results) != 1 {
+			continue
+		}
+		ev := c.resolve(p.Ret.Results[0], p.Env)
+		if isNilConst(ev) {
+			continue
+		}
+		k := c.key(ev, p.Env)
+		if seenErr[k] {
+			continue
+		}
+		seenErr[k] = true
+		nErr++
+		var call *ssa.Call
+		switch x := ev.(type) {
+		case *ssa.Extract:
+			call, _ = x.Tuple.(*ssa.Call)
+		case *ssa.Call:
+			call = x
+		}
+		name := ""
+		if call != nil {
+			name = calleeFullName(call)
+		}
+		if call != nil && name != "fmt.Errorf" && name != "errors.New" {
+			r.ok(rule, "error|"+k, c.instrPos(p.Ret), "error of a decoding call")
+		} else {
+			r.bad(rule, "error|"+k, c.instrPos(p.Ret), "the decoder rejects a document with an error of its own ("+k+"): a limit or shape test that the encoder does not respect makes some encoded expressions undecodable")
+		}
+	}
+	r.floor(rule, "error returns of the decoder", nErr, 3)
 }
 
 // JSON-PRINT (C12): the printed form of a leaf does not depend on its kind.
